@@ -13,12 +13,12 @@ RULE = ("G1 specs (recursive and not, incl. rules with >=3 edges and edgeless no
         "{float64,float32}, with gradients for Real/Log (float64): every configuration must agree with the independent "
         "reference within the derived bound tol/(1-rho) (values; float32: 1e-3) and 1e-6 (gradients), hence with every other "
         "configuration; Log = log(Real), Bool = (Real>0), Viterbi <= Log; interpreter clause: batches of specs are evaluated by one "
-        "driver under python, python -O and python -OO (and through bin/sum_product.py -OO) and must give identical output. "
+        "driver under python, python -O and python -OO (and through bin/sum_product.py -OO) and must give identical output; bin/sum_product.py <json> -d -G is run the same three ways and must print the in-process value. "
         "non-trivial = cyclic SCC and a rule with >=3 edges or an edgeless node; distinct by case hash")
 ASSUMPTIONS = ["only specs with finite Z and rho_inf(J(x*)) <= 0.9 are judged", "float64 runs use tol=1e-10, float32 runs tol=1e-5 and are compared at 1e-3",
                "gradient tolerance |g-g_ref| <= 1e-6*|g_ref| + 1e-8*(1+max|g_ref|) (float64 only)",
                "the -O/-OO comparison sees assertion-dependent behaviour on the generated inputs, not assertion-dependent code that does not execute"]
-ESSENTIAL_LABELS = ['recursive', 'rule>=3edges', 'jp:True', 'dtype:float32', 'interpreter-batch', 'patterned-weight']
+ESSENTIAL_LABELS = ['recursive', 'rule>=3edges', 'jp:True', 'dtype:float32', 'interpreter-batch', 'bin-script', 'patterned-weight']
 KINDS = ['real', 'log', 'viterbi', 'bool']
 METHODS = ['fixed-point', 'newton', 'linear']
 
@@ -252,6 +252,53 @@ def check_batch(case, ctx):
                 ok = close_lists(a['z'], b['z']) and all(close_lists(a.get('grads', {}).get(n), b.get('grads', {}).get(n)) for n in a.get('grads', {}))
                 ctx.require(ok, pre + 'assert-dependent-behaviour', f'spec {i} [{key}]: python gives {str(a)[:300]}, python {flag} gives {str(b)[:300]}', flag=flag, config=key, spec_index=i)
     ctx.nontrivial = len(items) >= 2
+    if case.get('bin'):
+        check_bin_script(_unjsonable(items[0]['spec']), ctx)
+
+
+def check_bin_script(spec, ctx):
+    """bin/sum_product.py <json> -d -G under python, -O and -OO (its shebang) must print the same, and the value must be the
+    in-process one."""
+    import torch, fggs
+    script = os.path.join(REPO_DIR, 'bin', 'sum_product.py')
+    if not os.path.exists(script):
+        ctx.skip('bin/sum_product.py not present'); return
+    old = torch.get_default_dtype()
+    try:
+        torch.set_default_dtype(torch.float64)
+        fgg, info = gen_fgg.build(spec, 'real', torch.float64)
+        j = fggs.fgg_to_json(fgg)
+        with warnings.catch_warnings():
+            warnings.simplefilter('ignore')
+            z0 = fggs.sum_product(fgg, method='fixed-point', semiring=fggs.RealSemiring(dtype=torch.float64), tol=1e-10, kmax=2000).to_dense().reshape(-1).tolist()
+    except Exception as e:
+        ctx.violation('bin-setup-failed', f'{type(e).__name__}: {e}'); return
+    finally:
+        torch.set_default_dtype(old)
+    env = dict(os.environ, PYTHONPATH=f'{REPO_DIR}', OMP_NUM_THREADS='1', PYTHONWARNINGS='ignore')
+    outs = {}
+    with tempfile.TemporaryDirectory(prefix='c11bin-') as d:
+        path = os.path.join(d, 'g.json')
+        with open(path, 'w') as f: json.dump(j, f)
+        for method in ('fixed-point', 'newton'):
+            for flag in ('', '-O', '-OO'):
+                cmd = [sys.executable] + ([flag] if flag else []) + [script, path, '-m', method, '-l', '1e-10', '-k', '2000', '-d'] + (['-G'] if fgg.factors else [])
+                p = subprocess.run(cmd, env=env, cwd=d, capture_output=True, text=True, timeout=300)
+                outs[(method, flag)] = (p.returncode, p.stdout.strip())
+    ctx.label('bin-script')
+    for method in ('fixed-point', 'newton'):
+        base = outs[(method, '')]
+        for flag in ('-O', '-OO'):
+            ctx.require(outs[(method, flag)] == base, 'assert-dependent-behaviour',
+                        f'bin/sum_product.py -m {method}: python gives rc={base[0]} {base[1][:300]!r}, python {flag} gives rc={outs[(method, flag)][0]} {outs[(method, flag)][1][:300]!r}', flag=flag)
+        if ctx.require(base[0] == 0 and base[1], 'bin-script-failed', f'bin/sum_product.py -m {method}: rc={base[0]} {base[1][:300]}'):
+            try:
+                z = json.loads(base[1].splitlines()[0])
+                zf = [z] if not isinstance(z, list) else list(np.asarray(z, dtype=float).reshape(-1))
+            except Exception as e:
+                ctx.violation('bin-output-unparsable', f'{base[1][:200]}'); continue
+            ok = len(zf) == len(z0) and all(abs(a - b) <= 1e-6 * (1 + abs(b)) or (a == b) for a, b in zip(zf, z0))
+            ctx.require(ok, 'bin-value-differs', f'bin/sum_product.py -m {method} prints {zf}, in-process sum_product gives {z0}')
 
 
 def close_lists(a, b):
